@@ -335,6 +335,17 @@ def in_form(path, form, opened=None):
     return path
 
 
+def open_relative(factory, path, *a, **k):
+    """Create a library object from a path given relative to the directory the program is in at that moment; the
+    program then moves on (back to where it was), and the object must keep working on the file it was given."""
+    here = os.getcwd()
+    os.chdir(os.path.dirname(path))
+    try:
+        return factory(os.path.basename(path), *a, **k)
+    finally:
+        os.chdir(here)
+
+
 class Handles:
     """Opens what an operation needs, lazily, and closes everything at the end."""
     def __init__(self, path, T, reader=None):
